@@ -32,5 +32,9 @@ def run(ctx):
     # ---------------------------------------------------------------- C04.ARGS
     from ..rules_common import check_call_arguments
     check_call_arguments(ctx, "C04.ARGS", "C04")
+    from ..rules_common import check_effect_tables
+    check_effect_tables(ctx, "C04")
+    from ..rules_common import check_presence_tests, ARG_SCOPE
+    check_presence_tests(ctx, "C04.PRESENCE", classes=ARG_SCOPE.get("C04", []))
 
 
